@@ -15,14 +15,15 @@ import (
 // Driver "amf" (C18).
 
 type amfScenario struct {
-	Sc   int             `json:"sc"`
-	Kind string          `json:"kind"` // dec | enc | deep | sdf | meta
-	V    json.RawMessage `json:"v"`
-	Cut  int             `json:"cut"`
-	Nest string          `json:"nest"`
-	N    int             `json:"n"`
-	Closed bool          `json:"closed"`
-	Sdf  bool            `json:"sdf"`
+	Sc          int             `json:"sc"`
+	Kind        string          `json:"kind"` // dec | enc | deep | sdf | meta
+	V           json.RawMessage `json:"v"`
+	Cut         int             `json:"cut"`
+	Nest        string          `json:"nest"`
+	N           int             `json:"n"`
+	Closed      bool            `json:"closed"`
+	Sdf         bool            `json:"sdf"`
+	SdfLong     bool            `json:"sdfLong"` // the @setDataFrame prefix in long-string form
 	W, H, A, Vc int
 }
 
@@ -258,7 +259,10 @@ func amfDriver(env *Env) error {
 			var v proj.AVal
 			json.Unmarshal(sc.V, &v)
 			var in []byte
-			if sc.Sdf {
+			if sc.Sdf && sc.SdfLong {
+				in = append(in, 0x0c, 0, 0, 0, 13)
+				in = append(in, "@setDataFrame"...)
+			} else if sc.Sdf {
 				in = append(in, proj.AmfEncode(&proj.AVal{K: "str", S: &proj.AStr{N: 13, S: "@setDataFrame"}})...)
 			}
 			in = append(in, proj.AmfEncode(&proj.AVal{K: "str", S: &proj.AStr{N: 10, S: "onMetaData"}})...)
